@@ -135,10 +135,145 @@ fn assemble(fixture: Vec<(String, Vec<u8>)>, bcfgs: Vec<BCfg>, ccfgs: Vec<CCfg>,
     }
 }
 
+// ------------------------------------------------------------------------------------------------ what the tools print
+/// the substrings on which a retry-on-flaky-registry heuristic would key (they occur in the pool below on their own, inside
+/// realistic messages, broken by an invalid byte, and in other letter case)
+const MARKERS: &[&str] = &["toomanyrequests", "TLS handshake timeout", "connection reset by peer", "i/o timeout", "unexpected EOF"];
+
+/// texts a `pack` / `docker` process (or a registry, the lifecycle, a buildpack through them) prints: (class, bytes)
+fn text_pool() -> Vec<(&'static str, Vec<u8>)> {
+    let mut v: Vec<(&'static str, Vec<u8>)> = vec![];
+    for m in [
+        "ERROR: failed to build: failed to fetch builder image 'index.docker.io/heroku/builder:24': Error response from daemon: toomanyrequests: You have reached your pull rate limit. You may increase the limit by authenticating and upgrading: https://www.docker.com/increase-rate-limit\n",
+        "ERROR: failed to build: failed to fetch base layers: Get \"https://registry-1.docker.io/v2/\": net/http: TLS handshake timeout\n",
+        "ERROR: failed to build: executing lifecycle: failed to write image to the following tags: read tcp 10.1.0.4:51234->54.198.86.24:443: read: connection reset by peer\n",
+        "ERROR: failed to build: failed to fetch builder image: Get \"https://registry-1.docker.io/v2/\": dial tcp 54.198.86.24:443: i/o timeout\n",
+        "[Error: Download failed]\ncurl: (18) transfer closed with outstanding read data remaining: unexpected EOF\nERROR: failed to build: executing lifecycle: failed with status code: 51\n",
+        "toomanyrequests", "TLS handshake timeout", "connection reset by peer", "i/o timeout", "unexpected EOF",
+        "docker: Error response from daemon: toomanyrequests: too many requests.\nSee 'docker run --help'.\n",
+    ] { v.push(("marker", m.as_bytes().to_vec())); }
+    for m in [
+        "Error response from daemon: Get \"https://registry-1.docker.io/v2/\": dial tcp: lookup registry-1.docker.io on 127.0.0.53:53: no such host\n",
+        "denied: requested access to the resource is denied\n",
+        "ERROR: failed to build: executing lifecycle. This may be the result of using an untrusted builder: failed with status code: 51\n",
+        "ERROR: failed to build\n",
+        "manifest unknown: manifest unknown\n",
+        "context deadline exceeded\n", "EOF", "429 Too Many Requests\n", "HTTP 429", "503 Service Unavailable\n",
+        "Retrying in 1 second (retry 1 of 5)\n", "retry", "Temporary failure in name resolution\n",
+        "TOOMANYREQUESTS", "tls handshake timeout", "Connection reset by peer (os error 104)\n", "unexpected  EOF", "I/O timeout",
+        "ERROR: Invalid Procfile!\n", "docker: Error response from daemon: driver failed programming external connectivity on endpoint x: Bind for 0.0.0.0:80 failed: port is already allocated.\n",
+    ] { v.push(("failure", m.as_bytes().to_vec())); }
+    for m in [
+        "===> ANALYZING\n===> DETECTING\nheroku/procfile 3.0.0\n===> RESTORING\n===> BUILDING\n[Discovering process types]\n===> EXPORTING\nSuccessfully built image 'app'\n",
+        "pack output\n", "Warning: Builder is trusted but additional modules were added, using the untrusted (5 phases) build flow\n", "\n", "no newline at the end",
+        "## stderr:\n\nnot the real one\n## stdout:\n\n", "日本語 ✓ é\n", "a\u{fffd}b\n", "--env", "\u{1b}[1;31mERROR:\u{1b}[0m coloured\n",
+    ] { v.push(("plain", m.as_bytes().to_vec())); }
+    v.push(("empty", vec![]));
+    v.push(("long", "downloading layer sha256:0123456789abcdef 12.5MB/48.1MB\n".repeat(110).into_bytes()));
+    let mut long = "x".repeat(3000).into_bytes(); long.extend_from_slice(b"\nnet/http: TLS handshake timeout\n"); long.extend_from_slice("y".repeat(2000).as_bytes());
+    v.push(("marker", long));
+    for m in [&b"\xff\xfe not utf-8\n"[..], b"toomany\xffrequests\n", b"\xe2\x82", b"\xed\xa0\x80x", b"\xc0\xafpath\n", b"tail \xf0\x9f\x98", b"\xf0\x9f\x98\x80\xf0\x9f\x98", b"\x80\xbf\xc3", b"\xe1\x80\xe2\xf0\x91\x92\xf1\xbf\x41", b"\xf4\x90\x80\x80 \xf5\x80 \xef\xbf\xbd \xef\xbf"] { v.push(("non-utf8", m.to_vec())); }
+    v.push(("marker", b"\xc3\x28 read: connection reset by peer \xa0\xa1\n".to_vec()));
+    v
+}
+
+fn has_marker(b: &[u8]) -> bool { let t = String::from_utf8_lossy(b); MARKERS.iter().any(|m| t.contains(m)) }
+
+/// position of every build's `pack build` among the pack invocations of the scenario (one per build of the chain, one per
+/// `download_sbom_files`, in program order) and the positions of the sbom downloads
+fn pack_positions(t: &Tree) -> (Vec<usize>, Vec<usize>) {
+    fn walk(a: &[Act], n: &mut usize, b: &mut Vec<usize>, s: &mut Vec<usize>) {
+        for x in a { match x {
+            Act::Sbom => { s.push(*n); *n += 1; }
+            Act::Rebuild(_, i) | Act::RebuildCtx(_, i) => { b.push(*n); *n += 1; walk(i, n, b, s); }
+            _ => {}
+        } }
+    }
+    let (mut b, mut s, mut n) = (vec![0], vec![], 1);
+    walk(&t.acts, &mut n, &mut b, &mut s);
+    (b, s)
+}
+
+/// a scripted case: the scenario plus the script as 6th field; tags say what the scripted `pack build`s do
+fn assemble_scripted(fixture: Vec<(String, Vec<u8>)>, bcfgs: Vec<BCfg>, ccfgs: Vec<CCfg>, tree: Tree, script: Vec<SEntry>, flavour: u64, kind: &str) -> Built {
+    let (builds, _) = pack_positions(&tree);
+    let ch = chain(&tree);
+    let find = |n: usize| script.iter().find(|e| e.prog == 'p' && e.n == n);
+    let mut unexpected = false;
+    let (mut retry, mut exits) = ("none", vec![]);
+    for (i, n) in builds.iter().enumerate() {
+        let Some(e) = find(*n) else { continue };
+        exits.push(e.exit);
+        if e.exit != 0 && has_marker(&e.err) { retry = "failing-stderr"; } else if retry == "none" && (has_marker(&e.err) || has_marker(&e.out)) { retry = "elsewhere"; }
+        if (e.exit == 0) != bcfgs[ch[i]].expect_success { unexpected = true; break; }
+    }
+    let invalid = script.iter().any(|e| std::str::from_utf8(&e.out).is_err() || std::str::from_utf8(&e.err).is_err());
+    let eventful = script.iter().any(|e| e.exit != 0 || !e.err.is_empty() || invalid);
+    let mut b = assemble(fixture, bcfgs, ccfgs, tree, kind);
+    b.fields[4] = format!("-@{flavour}");
+    b.fields.push(enc_script(&script));
+    b.tags.push((s("pack_result"), s(if unexpected { "unexpected" } else { "as-expected" })));
+    b.tags.push((s("pack_exit"), s(if exits.iter().all(|e| *e == 0) { "0" } else if exits.iter().all(|e| *e != 0) { "nonzero" } else { "mixed" })));
+    b.tags.push((s("marker"), s(retry)));
+    b.tags.push((s("utf8"), s(if invalid { "invalid" } else { "valid" })));
+    b.tags.push((s("docker_scripted"), script.iter().filter(|e| e.prog == 'd').count().to_string()));
+    b.nontrivial = b.nontrivial || eventful;
+    b
+}
+
+fn se(prog: char, n: usize, exit: u8, out: &[u8], err: &[u8]) -> SEntry { SEntry { prog, n, exit, out: out.to_vec(), err: err.to_vec() } }
+
 fn plain_bcfg() -> BCfg {
     BCfg { builder: s("heroku/builder:24"), app: AppDir::Rel(s("fixtures/app")), pre: None, bps: vec![s("heroku/procfile")], env: vec![], expect_success: true, triple: 'x', pack_nonzero: false }
 }
 fn plain_ccfg() -> CCfg { CCfg { entrypoint: None, command: None, env: vec![], ports: vec![], mounts: vec![] } }
+
+/// one random scenario: fixture, build configs, container configs, the acts of the outermost closure
+fn gen_scenario(r: &mut Rng, meta_mount: bool, meta_bp: bool) -> (Vec<(String, Vec<u8>)>, Vec<BCfg>, Vec<CCfg>, Vec<Act>) {
+    let fixture = gen_fixture(r);
+    let mut bcfgs = vec![gen_bcfg(r, meta_bp, &fixture)];
+    let mut ccfgs = vec![];
+    let mut acts = vec![];
+    let n_acts = r.below(4);
+    for a in 0..n_acts {
+        match r.below(6) {
+            0 | 1 | 2 => {
+                let c = gen_ccfg(r, meta_mount && ccfgs.is_empty());
+                let mut cas = vec![];
+                for _ in 0..r.below(4) {
+                    cas.push(match r.below(4) { 0 => CAct::LogsNow, 1 => CAct::LogsWait, 2 if !c.ports.is_empty() => CAct::Port(*r.pick(&c.ports)), _ => CAct::Exec(any_string(r)) });
+                }
+                ccfgs.push(c);
+                acts.push(Act::Start(ccfgs.len() - 1, cas));
+            }
+            3 => acts.push(Act::Shell(any_string(r))),
+            4 => acts.push(Act::Sbom),
+            _ if a + 1 == n_acts => {
+                let inner = if r.chance(1, 2) { vec![Act::Shell(any_string(r))] } else { vec![] };
+                if r.chance(1, 2) {
+                    bcfgs.push(gen_bcfg(r, false, &fixture));
+                    acts.push(Act::Rebuild(1, inner));
+                } else {
+                    // `context.config.clone()`, then env pairs (sometimes overriding an inherited key) and the expected result
+                    let mut ov = plain_bcfg();
+                    ov.env = vec![];
+                    for _ in 0..r.below(3) {
+                        let k = if !bcfgs[0].env.is_empty() && r.chance(1, 3) { bcfgs[0].env[0].0.clone() } else { pk(r, KEYS) };
+                        ov.env.push((k, any_string(r)));
+                    }
+                    if r.chance(1, 8) { ov.expect_success = false; ov.pack_nonzero = true; }
+                    bcfgs.push(ov);
+                    // sometimes a third build, again from the (second) context's config
+                    let inner = if r.chance(1, 4) { let mut i2 = inner; i2.push(Act::RebuildCtx(1, vec![])); i2 } else { inner };
+                    acts.push(Act::RebuildCtx(1, inner));
+                }
+            }
+            _ => acts.push(Act::Shell(any_string(r))),
+        }
+    }
+    if meta_mount && ccfgs.is_empty() { ccfgs.push(gen_ccfg(r, true)); acts.insert(0, Act::Start(0, vec![])); }
+    (fixture, bcfgs, ccfgs, acts)
+}
 
 fn generate(tier: &str, seed: u64, emit: &mut dyn FnMut(Case)) {
     let fixture0 = vec![(s("Procfile"), b"web: true\n".to_vec()), (s("app.txt"), b"content".to_vec())];
@@ -186,54 +321,80 @@ fn generate(tier: &str, seed: u64, emit: &mut dyn FnMut(Case)) {
         push(assemble(fixture0.clone(), vec![first.clone(), overlay.clone(), none.clone()], vec![], Tree { cfg: 0, acts: vec![Act::RebuildCtx(2, vec![Act::RebuildCtx(1, vec![])])] }, "exhaustive-rebuild"));
         push(assemble(fixture0.clone(), vec![none.clone(), first.clone()], vec![], Tree { cfg: 0, acts: vec![Act::Rebuild(1, vec![Act::RebuildCtx(0, vec![])])] }, "exhaustive-rebuild"));
     } }
+    // bounded-exhaustive part 3 (scripted tool results): every text of the pool (realistic failure messages of pack / docker /
+    // registries, the retry-heuristic markers alone, inside messages, in other case, broken by an invalid byte; empty; ~6 kB;
+    // ill-formed UTF-8) as what one `pack build` prints, in five situations; then failing/succeeding builds and rebuilds in a row
+    let pool = text_pool();
+    let ok_out: &[u8] = b"===> BUILDING\nSuccessfully built image\n";
+    let fail_bcfg = || BCfg { expect_success: false, pack_nonzero: true, ..plain_bcfg() };
+    let statuses = [1u8, 2, 125, 255, 51, 127, 130, 7];
+    let tree0 = |acts: Vec<Act>| Tree { cfg: 0, acts };
+    for (k, (_, t)) in pool.iter().enumerate() {
+        let st = statuses[k % statuses.len()];
+        let extra = [se('p', 1, 0, ok_out, b""), se('p', 2, 1, b"", b"ERROR: failed to build\n")];
+        let with = |first: SEntry| { let mut v = vec![first]; v.extend(extra.iter().cloned()); v };
+        // an expected failure printing the text on stderr / on stdout
+        push(assemble_scripted(fixture0.clone(), vec![fail_bcfg()], vec![], tree0(vec![Act::Shell(s("true"))]), with(se('p', 0, st, b"pack output\n", t)), (k % 3) as u64, "out-exhaustive"));
+        push(assemble_scripted(fixture0.clone(), vec![fail_bcfg()], vec![], tree0(vec![]), with(se('p', 0, 1, t, b"ERROR: failed to build: executing lifecycle: failed with status code: 51\n")), (k % 3) as u64, "out-exhaustive"));
+        // a successful build printing it as a warning
+        push(assemble_scripted(fixture0.clone(), vec![plain_bcfg()], vec![plain_ccfg()], tree0(vec![Act::Start(0, vec![CAct::LogsNow])]), with(se('p', 0, 0, ok_out, t)), (k % 3) as u64, "out-exhaustive"));
+        // the unexpected results: a failure where success is expected, a success where failure is expected
+        push(assemble_scripted(fixture0.clone(), vec![plain_bcfg()], vec![], tree0(vec![Act::Shell(s("never runs"))]), with(se('p', 0, st, b"pack output\n", t)), (k % 3) as u64, "out-exhaustive"));
+        push(assemble_scripted(fixture0.clone(), vec![fail_bcfg()], vec![], tree0(vec![Act::Shell(s("never runs"))]), with(se('p', 0, 0, t, t)), (k % 3) as u64, "out-exhaustive"));
+    }
+    for (k, (class, t)) in pool.iter().enumerate() {
+        if !(*class == "marker" || k % 4 == 0) { continue; }
+        let tail = [se('p', 3, 0, ok_out, b""), se('p', 4, 0, ok_out, b"")];
+        let mk = |v: Vec<SEntry>| { let mut v = v; v.extend(tail.iter().cloned()); v };
+        let ok_cfg = BCfg { env: vec![(s("K"), s("v"))], ..plain_bcfg() };
+        let fail_ctx = BCfg { env: vec![(s("FAIL"), s("1"))], expect_success: false, pack_nonzero: true, ..plain_bcfg() };
+        // failing (expected), then a rebuild that succeeds, then one more from the context's config
+        push(assemble_scripted(fixture0.clone(), vec![fail_bcfg(), ok_cfg.clone()], vec![], tree0(vec![Act::Rebuild(1, vec![Act::Shell(s("true")), Act::RebuildCtx(1, vec![])])]),
+            mk(vec![se('p', 0, 1, b"", t), se('p', 1, 0, ok_out, b""), se('p', 2, 0, ok_out, b"")]), 0, "out-rebuild"));
+        // succeeding, then an sbom download, then a rebuild from the context's config that fails as expected with the text
+        push(assemble_scripted(fixture0.clone(), vec![ok_cfg.clone(), fail_ctx.clone()], vec![], tree0(vec![Act::Sbom, Act::RebuildCtx(1, vec![])]),
+            mk(vec![se('p', 0, 0, ok_out, b""), se('p', 1, 0, b"sbom\n", t), se('p', 2, 2, t, t)]), 1, "out-rebuild"));
+        // two expected failures in a row with different texts, then a success
+        push(assemble_scripted(fixture0.clone(), vec![fail_bcfg(), ok_cfg.clone()], vec![], tree0(vec![Act::Rebuild(0, vec![Act::Rebuild(1, vec![Act::Shell(s("true"))])])]),
+            mk(vec![se('p', 0, 1, b"first\n", t), se('p', 1, 255, b"second\n", b"ERROR: failed to build\n"), se('p', 2, 0, ok_out, b"")]), 2, "out-rebuild"));
+    }
+    // seeded random scripted scenarios: the random scenarios of below with every pack invocation (and some docker ones) scripted
+    let n_scripted = match tier { "thorough" => 6000, _ => 400 };
+    for i in 0..n_scripted {
+        let mut r = Rng::for_case(seed ^ 0x5c17, i);
+        let (fixture, mut bcfgs, ccfgs, acts) = gen_scenario(&mut r, false, false);
+        for b in &mut bcfgs { b.expect_success = !r.chance(2, 5); b.pack_nonzero = !b.expect_success; }
+        let tree = Tree { cfg: 0, acts };
+        let (builds, sboms) = pack_positions(&tree);
+        let ch = chain(&tree);
+        let text = |r: &mut Rng| -> Vec<u8> { if r.chance(1, 5) { vec![] } else { pool[r.below(pool.len() as u64) as usize].1.clone() } };
+        let mut script = vec![];
+        for (j, n) in builds.iter().enumerate() {
+            let as_expected = !r.chance(1, 8);
+            let zero = bcfgs[ch[j]].expect_success == as_expected;
+            let (o, e) = (text(&mut r), text(&mut r));
+            script.push(se('p', *n, if zero { 0 } else { *r.pick(&statuses) }, &o, &e));
+        }
+        for n in &sboms { let (o, e) = (text(&mut r), text(&mut r)); script.push(se('p', *n, 0, &o, &e)); }
+        let total = builds.len() + sboms.len();
+        for n in total..total + 2 { let (o, e) = (text(&mut r), text(&mut r)); script.push(se('p', n, if r.chance(1, 2) { 0 } else { 1 }, &o, &e)); }
+        if r.chance(1, 2) {
+            for _ in 0..r.range(1, 3) {
+                let n = r.below(8) as usize;
+                if script.iter().any(|e| e.prog == 'd' && e.n == n) { continue; }
+                let (o, e) = (text(&mut r), text(&mut r));
+                script.push(se('d', n, if r.chance(1, 6) { *r.pick(&statuses) } else { 0 }, &o, &e));
+            }
+        }
+        push(assemble_scripted(fixture, bcfgs, ccfgs, tree, script, i % 3, "out-random"));
+    }
     let n = match tier { "thorough" => 20000, _ => 1600 };
     let search = std::env::var("VERIF_SEARCH").is_ok();
     for i in 0..n {
         let mut r = Rng::for_case(seed, i);
         // a clearly tagged minority carries the CSV metacharacters of finding D6 (none during a violation search)
         let (meta_mount, meta_bp) = if search { (false, false) } else { (i % 40 == 7, i % 40 == 23) };
-        let fixture = gen_fixture(&mut r);
-        let mut bcfgs = vec![gen_bcfg(&mut r, meta_bp, &fixture)];
-        let mut ccfgs = vec![];
-        let mut acts = vec![];
-        let n_acts = r.below(4);
-        for a in 0..n_acts {
-            match r.below(6) {
-                0 | 1 | 2 => {
-                    let c = gen_ccfg(&mut r, meta_mount && ccfgs.is_empty());
-                    let mut cas = vec![];
-                    for _ in 0..r.below(4) {
-                        cas.push(match r.below(4) { 0 => CAct::LogsNow, 1 => CAct::LogsWait, 2 if !c.ports.is_empty() => CAct::Port(*r.pick(&c.ports)), _ => CAct::Exec(any_string(&mut r)) });
-                    }
-                    ccfgs.push(c);
-                    acts.push(Act::Start(ccfgs.len() - 1, cas));
-                }
-                3 => acts.push(Act::Shell(any_string(&mut r))),
-                4 => acts.push(Act::Sbom),
-                _ if a + 1 == n_acts => {
-                    let inner = if r.chance(1, 2) { vec![Act::Shell(any_string(&mut r))] } else { vec![] };
-                    if r.chance(1, 2) {
-                        bcfgs.push(gen_bcfg(&mut r, false, &fixture));
-                        acts.push(Act::Rebuild(1, inner));
-                    } else {
-                        // `context.config.clone()`, then env pairs (sometimes overriding an inherited key) and the expected result
-                        let mut ov = plain_bcfg();
-                        ov.env = vec![];
-                        for _ in 0..r.below(3) {
-                            let k = if !bcfgs[0].env.is_empty() && r.chance(1, 3) { bcfgs[0].env[0].0.clone() } else { pk(&mut r, KEYS) };
-                            ov.env.push((k, any_string(&mut r)));
-                        }
-                        if r.chance(1, 8) { ov.expect_success = false; ov.pack_nonzero = true; }
-                        bcfgs.push(ov);
-                        // sometimes a third build, again from the (second) context's config
-                        let inner = if r.chance(1, 4) { let mut i2 = inner; i2.push(Act::RebuildCtx(1, vec![])); i2 } else { inner };
-                        acts.push(Act::RebuildCtx(1, inner));
-                    }
-                }
-                _ => acts.push(Act::Shell(any_string(&mut r))),
-            }
-        }
-        if meta_mount && ccfgs.is_empty() { ccfgs.push(gen_ccfg(&mut r, true)); acts.insert(0, Act::Start(0, vec![])); }
+        let (fixture, bcfgs, ccfgs, acts) = gen_scenario(&mut r, meta_mount, meta_bp);
         let kind = if meta_mount { "d6-mount-csv-meta" } else if meta_bp { "d6-buildpack-csv-meta" } else { "random" };
         // what the stand-in tools print (container id, `docker port` text, pack/docker stdout) and the status an expected-failure
         // `pack build` exits with rotate through three sets; no configuration may depend on them
@@ -244,6 +405,115 @@ fn generate(tier: &str, seed: u64, emit: &mut dyn FnMut(Case)) {
     }
 }
 
-fn run_case(fields: &[String]) -> String { run_scenario_case(fields) }
+// ------------------------------------------------------------------------------------------------ scripted tool results
+/// one scripted invocation: program (`p`ack / `d`ocker), its 0-based invocation number, exit status, stdout, stderr
+#[derive(Clone)]
+struct SEntry { prog: char, n: usize, exit: u8, out: Vec<u8>, err: Vec<u8> }
+
+fn enc_script(s: &[SEntry]) -> String {
+    if s.is_empty() { "-".into() } else { s.iter().map(|e| format!("{}{}:{}:{}:{}", e.prog, e.n, e.exit, hex(&e.out), hex(&e.err))).collect::<Vec<_>>().join(",") }
+}
+fn parse_script(s: &str) -> Option<Vec<SEntry>> {
+    if s == "-" { return Some(vec![]); }
+    s.split(',').map(|e| {
+        let p: Vec<&str> = e.split(':').collect();
+        if p.len() != 4 { return None; }
+        let prog = p[0].chars().next().filter(|c| *c == 'p' || *c == 'd')?;
+        if p[0].len() < 2 || !p[0][1..].bytes().all(|b| b.is_ascii_digit()) || p[1].is_empty() || !p[1].bytes().all(|b| b.is_ascii_digit()) { return None; }
+        Some(SEntry { prog, n: p[0][1..].parse().ok()?, exit: p[1].parse().ok()?, out: unhex(p[2])?, err: unhex(p[3])? })
+    }).collect()
+}
+
+/// how many pack invocations the scenario makes at most (one per build of the chain, one per `download_sbom_files`)
+fn pack_invocations(t: &Tree) -> usize {
+    fn walk(a: &[Act]) -> usize { a.iter().map(|x| match x { Act::Sbom => 1, Act::Rebuild(_, i) | Act::RebuildCtx(_, i) => 1 + walk(i), _ => 0 }).sum() }
+    1 + walk(&t.acts)
+}
+
+/// Fields: fixture, bcfgs, ccfgs, tree, `-[@flavour]`, script. The real `TestRunner` runs in the child process `trun` with the
+/// stand-ins first on PATH, every scripted invocation printing and exiting as scripted. Observation: the five parts of
+/// `lct::run_scenario_case`, then what the test was handed (`ctx=`: pack_stdout/pack_stderr of every TestContext; `panic=`: the
+/// message of the first panic if it is one of the two of `build_internal`'s match on the pack result, else `other`/`-`) and what
+/// the stand-in recorded having printed at each `pack build` (`inv=`).
+fn run_scripted_case(fields: &[String]) -> String {
+    let (Some(fixture), Some(bcfgs), Some(_), Some(tree), Some(script)) = (parse_fixture(&fields[0]), parse_cfg_list(&fields[1], parse_bcfg), parse_cfg_list(&fields[2], parse_ccfg), parse_tree(&fields[3]), parse_script(&fields[5])) else { return "bad-op".into() };
+    let ch = chain(&tree);
+    if ch.iter().any(|i| *i >= bcfgs.len()) { return "bad-op".into(); }
+    let flavour = match fields[4].split_once('@') { Some(("-", f)) => f, None if fields[4] == "-" => "0", _ => return "bad-op".into() };
+    if flavour.parse::<u32>().map_or(true, |f| f > 3) { return "bad-op".into(); }
+    if (0..pack_invocations(&tree)).any(|n| !script.iter().any(|e| e.prog == 'p' && e.n == n)) { return "bad-op".into(); }
+    let root = tempfile::Builder::new().prefix("lct-").tempdir().unwrap();
+    let root_path = root.path().canonicalize().unwrap();
+    let (m, a, t, bin, log) = (root_path.join("m"), root_path.join("a"), root_path.join("t"), root_path.join("bin"), root_path.join("log"));
+    for d in [&m, &a, &t, &bin] { std::fs::create_dir_all(d).unwrap(); }
+    let write_fixture = |root: &std::path::Path| {
+        std::fs::create_dir_all(root).unwrap();
+        for (p, c) in &fixture { let f = root.join(p); std::fs::create_dir_all(f.parent().unwrap()).unwrap(); std::fs::write(f, c).unwrap(); }
+    };
+    write_fixture(&m.join("fixtures/app"));
+    write_fixture(&a.join("app"));
+    std::fs::write(&log, b"").unwrap();
+    let before = (file_snapshot(&m), file_snapshot(&a));
+    let sibling = |name: &str| std::env::current_exe().unwrap().parent().unwrap().join(name);
+    for prog in ["docker", "pack"] { std::os::unix::fs::symlink(sibling("standin"), bin.join(prog)).unwrap(); }
+    let script_file = root_path.join("script");
+    std::fs::write(&script_file, script.iter().map(|e| format!("{} {} {} h{} h{}\n", if e.prog == 'p' { "pack" } else { "docker" }, e.n, e.exit, hex(&e.out), hex(&e.err))).collect::<String>()).unwrap();
+    let pack_results: Vec<String> = ch.iter().map(|i| u8::from(bcfgs[*i].pack_nonzero).to_string()).collect();
+    let mut cmd = std::process::Command::new(sibling("trun"));
+    cmd.args(&fields[1..4])
+        .env_clear()
+        .env("PATH", &bin).env("TMPDIR", &t).env("CARGO_MANIFEST_DIR", &m).env("LCT_ABS_BASE", &a)
+        .env("STANDIN_LOG", &log).env("STANDIN_BIN", &bin).env("STANDIN_PACK_BUILD_RESULTS", pack_results.join(","))
+        .env("STANDIN_FLAVOUR", flavour).env("STANDIN_SCRIPT", &script_file).env("STANDIN_OUTLOG", root_path.join("outlog"))
+        .env("TRUN_CTX_LOG", root_path.join("ctxlog")).env("TRUN_PANIC_LOG", root_path.join("paniclog"))
+        .stdin(std::process::Stdio::null()).stdout(std::process::Stdio::null()).stderr(std::process::Stdio::null());
+    let mut child = cmd.spawn().unwrap();
+    let start = std::time::Instant::now();
+    let status = loop {
+        match child.try_wait().unwrap() {
+            Some(st) => break Some(st),
+            None if start.elapsed().as_secs() > 60 => { let _ = child.kill(); let _ = child.wait(); break None; }
+            None => std::thread::sleep(std::time::Duration::from_millis(2)),
+        }
+    };
+    use std::os::unix::process::ExitStatusExt;
+    let exit = match status {
+        None => "timeout".to_string(),
+        Some(st) => match (st.code(), st.signal()) { (Some(0), _) => "ok".into(), (Some(101), _) => "panic".into(), (_, Some(6)) => "abort".into(), (Some(c), _) => format!("other{c}"), (_, Some(s)) => format!("signal{s}"), (None, None) => "unknown".into() },
+    };
+    let mut canon = Canon::new(&t, &m, &a);
+    let text = std::fs::read_to_string(&log).unwrap_or_default();
+    let outlog = std::fs::read_to_string(root_path.join("outlog")).unwrap_or_default();
+    let (mut cmds, mut inv) = (vec![], vec![]);
+    for (k, line) in text.lines().enumerate() {
+        let mut it = line.split(' ');
+        let prog = match it.next() { Some("docker") => "d", Some("pack") => "p", _ => "?" };
+        let mut c = prog.to_string();
+        for w in it { let bytes = unhex(w.strip_prefix('h').unwrap_or("zz")).unwrap_or_default(); c.push_str(",h"); c.push_str(&hex(&canon.word(&bytes))); }
+        cmds.push(c);
+        if line.starts_with("pack h6275696c64 ") || line == "pack h6275696c64" {
+            // what the stand-in recorded for this (1-based) line of its log
+            let rec = outlog.lines().find_map(|l| { let p: Vec<&str> = l.split(' ').collect(); (p.len() == 4 && p[0].parse::<usize>().ok() == Some(k + 1)).then(|| format!("{}:{}:{}", p[1], p[2].trim_start_matches('h'), p[3].trim_start_matches('h'))) });
+            inv.push(rec.unwrap_or_else(|| "?".into()));
+        }
+    }
+    let snaps: Vec<String> = std::fs::read_to_string(root_path.join("log.snap")).unwrap_or_default().lines().map(str::to_string).collect();
+    let left = std::fs::read_dir(&t).map(|rd| rd.count()).unwrap_or(0);
+    let after = (file_snapshot(&m), file_snapshot(&a));
+    let ctx: Vec<String> = std::fs::read_to_string(root_path.join("ctxlog")).unwrap_or_default().lines()
+        .map(|l| l.split(' ').map(|w| w.trim_start_matches('h').to_string()).collect::<Vec<_>>().join(":")).collect();
+    let panic = match std::fs::read_to_string(root_path.join("paniclog")).unwrap_or_default().lines().next() {
+        None => "-".to_string(),
+        Some(l) => {
+            let msg = unhex(l.trim_start_matches('h')).unwrap_or_default();
+            if msg.starts_with(b"Error performing pack build:") || msg.starts_with(b"The pack build was expected to fail") { format!("h{}", hex(&msg)) } else { "other".into() }
+        }
+    };
+    let dash = |v: &Vec<String>, sep: &str| if v.is_empty() { "-".to_string() } else { v.join(sep) };
+    format!("exit={} log={} tmp={} fixture={} snaps={} ctx={} panic={} inv={}", exit, dash(&cmds, ";"), left,
+        if before == after { "same" } else { "changed" }, dash(&snaps, "/"), dash(&ctx, "/"), panic, dash(&inv, "/"))
+}
+
+fn run_case(fields: &[String]) -> String { if fields.len() == 6 { run_scripted_case(fields) } else { run_scenario_case(fields) } }
 
 fn main() { cnbv::main_loop_jobs("c17", 12, &generate, &run_case) }
